@@ -245,11 +245,12 @@ def rule_S2(ctx, rid='S2'):
     ctx.require(n >= 1, 'Union.split: volume comparison of the children not found')
     # the minimum-size rule of the may-split flag
     factors = {}
-    for q in ('Union.compute', 'Union.split'):
+    for q in ('Union.compute', 'Union.split', 'Union.read'):
+        if not ctx.program.has_func(q):
+            continue
         g = ctx.program.func(q)
         for x in ast.walk(g.node):
             if isinstance(x, ast.Compare) and len(x.ops) == 1 and \
-                    isinstance(x.ops[0], (ast.Lt, ast.LtE)) and \
                     isinstance(x.left, ast.Call) and dotted(x.left.func) == 'len' and \
                     'n_points_min' in unparse(x.comparators[0]):
                 r = x.comparators[0]
@@ -261,7 +262,8 @@ def rule_S2(ctx, rid='S2'):
                 factors.setdefault((k, type(x.ops[0]).__name__), []).append(q)
     ok = len(factors) == 1
     ctx.ob(rid, 'Union:may-split-rule-agrees', ok, ctx.program.func('Union.compute').where(),
-           'compute() and split() flag an ellipsoid as unsplittable by the same size rule %s'
+           'compute(), split() and the reader of older files flag an ellipsoid as unsplittable '
+           'by the same size rule %s'
            % list(factors) if ok else
            'the may-split flag uses different size rules: %s' % factors)
 
